@@ -25,10 +25,6 @@ instance (ops : List Op) : Decidable (Differs ops) := by unfold Differs; infer_i
 
 theorem refutes {ops : List Op} (h : Differs ops) : ¬ C18_full := fun hf => h (hf H0 0 ops)
 
-/-- fs:delete-nonempty-bucket -/
-theorem C18_counterexample_delete_nonempty_bucket :
-    Differs [.createBucket bka, .putObject bka kA [1] none {} none, .deleteBucket bka] := by decide
-
 /-- fs:head-without-etag -/
 theorem C18_counterexample_head_without_etag :
     Differs [.createBucket bka, .putObject bka kA [1] none {} none, .headObject bka kA] := by decide
@@ -105,8 +101,14 @@ theorem C18_counterexample_complete_missing_part :
 
 (1d0f501 put_object / create_multipart_upload require the bucket; b01fec8 put_object without metadata removes the old
 metadata file; ca1e912 copy onto itself keeps the object; d6f1a3c head_object tells a missing key from a missing bucket;
+dbc4627 delete_bucket refuses a bucket that holds objects;
 b89afe2 ranged reads: covered for all ranges by `C18_get_refines_partial` and `C18_range_check`, the kernel cannot
 evaluate the decimal formatter of `Content-Range`) -/
+
+/-- the error code of an answer -/
+def tagOf : Resp → Option Err
+  | .err e => some e
+  | _ => none
 
 /-- answers agree on this history -/
 def Same (ops : List Op) : Prop := (run H0 0 {} ops).2 = (StoreSpec.run H0 {} ops).2
@@ -143,6 +145,18 @@ theorem C18_fixed_head_missing_key_code :
     (run H0 0 {} [.createBucket bka, .headObject bka kA, .headObject [98, 107, 98] kA]).2 =
       [.ok, .err .NoSuchKey, .err .NoSuchBucket] := by decide
 
+/-- was fs:delete-nonempty-bucket (the witness history of `corpus/fs.txt`): a bucket that holds an object is refused with
+    `BucketNotEmpty` on both sides and the object stays; once the object is deleted the bucket can be deleted — also when a
+    directory is left behind by a nested key -/
+theorem C18_fixed_delete_nonempty_bucket :
+    Same [.createBucket bka, .putObject bka kA [1] none {} none, .deleteBucket bka, .getObject bka kA none,
+      .deleteObject bka kA, .deleteBucket bka, .headBucket bka] ∧
+    (run H0 0 {} [.createBucket bka, .putObject bka kA [1] none {} none, .deleteBucket bka, .getObject bka kA none,
+      .deleteObject bka kA, .deleteBucket bka, .headBucket bka]).2.map tagOf =
+      [none, none, some .BucketNotEmpty, none, none, none, some .NoSuchBucket] ∧
+    Same [.createBucket bka, .putObject bka kTU [1] none {} none, .deleteBucket bka, .deleteObject bka kTU,
+      .deleteBucket bka, .headBucket bka] := by decide
+
 /-- was fs:suffix-range-longer-than-object / fs:suffix-range-huge-panics: the model no longer fails or panics (the answer
     itself is compared by `C18_get_refines_partial`) -/
 theorem C18_fixed_suffix_ranges :
@@ -151,6 +165,6 @@ theorem C18_fixed_suffix_ranges :
       (fun r => r != .panic && r != .err .InternalError) = true := by decide
 
 /-- the unrestricted statement is false of the model (hence, by the correspondence runs, of the backend) -/
-theorem C18_full_false : ¬ C18_full := refutes C18_counterexample_delete_nonempty_bucket
+theorem C18_full_false : ¬ C18_full := refutes C18_counterexample_head_without_etag
 
 end S3V.C18
